@@ -4,7 +4,6 @@ use datafusion::sql::unparser::{dialect, plan_to_sql, Unparser};
 use dfv::canon::compare;
 use dfv::cases::Case;
 use dfv::diffrun::*;
-use dfv::qgen::GenCfg;
 use vcommon::{fp_mix, fp_str, json, Args, Report, Rng};
 
 fn one_case(rep: &Report, case: &Case, _rng: &mut Rng) {
@@ -114,7 +113,8 @@ fn run(args: &Args) -> i32 {
     let rep = Report::new("C38", "exploration", args);
     rep.set_rule("case = generated query; its unoptimized and optimized logical plans are unparsed with the default dialect, re-planned from the text in a fresh session and executed; rows and logical output types are compared with the original plan's; four other dialects are checked to produce text their sqlparser dialect parses; distinct = hash(case, outcome); non-trivial = at least one form was unparsed and re-executed");
     rep.assume("unparser rejections are skips (conditional property), counted by reason");
-    let cfg = GenCfg::default();
+    let cfg = gen_cfg_from(args, "full");
+    rep.extra("generator_fragment", json!(format!("{cfg:?}")));
     for_each_case(args, &rep, 0xC38, args.bound("systematic", 400, 3000), args.bound("random", 400, 12000), &cfg, |case, rng, _| one_case(&rep, case, rng));
     rep.obligation("roundtrips", rep.get_count("roundtrip/optimized") + rep.get_count("roundtrip/unoptimized") > 100, "plans must actually round-trip");
     rep.finish()
